@@ -603,7 +603,11 @@ func (s *Sim) mutate(msg sdk.Msg, p *Pkt) string {
 		return "transfer"
 	}
 	mutV1 := func(pk *channeltypes.Packet) string {
-		switch r.Intn(9) {
+		k := r.Intn(12)
+		if k >= 9 {
+			k = 0 // the application data is the field a relayer is most interested in: a third of the v1 mutations
+		}
+		switch k {
 		case 8:
 			pk.DestinationPort = otherPort(pk.DestinationPort)
 			return "dstport"
@@ -638,7 +642,11 @@ func (s *Sim) mutate(msg sdk.Msg, p *Pkt) string {
 		}
 	}
 	mutV2 := func(pk *channeltypesv2.Packet) string {
-		switch r.Intn(11) {
+		k := r.Intn(14)
+		if k >= 11 {
+			k = 0
+		}
+		switch k {
 		case 9:
 			// the payload is handed to another registered application
 			pls := append([]channeltypesv2.Payload{}, pk.Payloads...)
